@@ -15,7 +15,8 @@ def minimise(prop, run, fails, budget_s=120, budget_n=300):
     best_v = [None]
 
     def ok():
-        return tries[0] < budget_n and time.time() - t0 < budget_s
+        return (budget_s > 0 and tries[0] < budget_n
+                and time.time() - t0 < budget_s)
 
     def test(cand):
         tries[0] += 1
